@@ -179,6 +179,22 @@ def var_modifiers(var_name: str) -> List[str]:
     return []
 
 
+def safe_str(value) -> str:
+    """
+    Convert a value to a string, without failing.
+
+    It is possible for str to fail if there is a custom __str__ (or __repr__) function, in which case we fall
+    back to the type and identity of the value.
+
+    :param value: the value to convert
+    :return: a string of the value
+    """
+    try:
+        return str(value)
+    except Exception:
+        return f'{type(value)}@{id(value)}'
+
+
 def variable_to_string(variable_type, var_value):
     """
     Convert the variable to a string.
@@ -196,12 +212,8 @@ def variable_to_string(variable_type, var_value):
         # large, and quite pointless, instead we just get the size of the collection
         return 'Size: %s' % len(var_value)
     else:
-        try:
-            # everything else just gets a string value
-            return str(var_value)
-        except Exception:
-            # it is possible for str to fail if there is a custom __str__ function
-            return f'{type(var_value)}@{id(var_value)}'
+        # everything else just gets a string value
+        return safe_str(var_value)
 
 
 def process_variable(var_collector: Collector, node: NodeValue) -> VariableResponse:
@@ -322,10 +334,9 @@ def find_children_for_parent(var_collector: Collector, parent_node: ParentNode, 
         return process_list_breadth_first(var_collector, parent_node, value)
     elif isinstance(value, Exception):
         return process_list_breadth_first(var_collector, parent_node, value.args)
-    elif hasattr(value, '__class__'):
-        return process_dict_breadth_first(parent_node, variable_type.__name__, value.__dict__, correct_names)
     elif hasattr(value, '__dict__'):
-        return process_dict_breadth_first(parent_node, variable_type.__name__, value.__dict__)
+        # not all objects have a __dict__ (e.g. slots, frames, builtin types), these have no children we can collect
+        return process_dict_breadth_first(parent_node, variable_type.__name__, value.__dict__, correct_names)
     else:
         logging.debug("Unknown type processed %s", variable_type)
         return []
@@ -346,9 +357,9 @@ def process_dict_breadth_first(parent_node, type_name, value, func=lambda x, y: 
     :return (list): the collected child nodes
     """
     # we wrap the keys() in a call to list to prevent concurrent changes
-    return [Node(value=NodeValue(func(type_name, key), value[key], key), parent=parent_node) for key in
-            list(value.keys()) if
-            key in value]
+    # the keys of a dict do not have to be strings, but the names of the variables do
+    return [Node(value=NodeValue(func(type_name, safe_str(key)), value[key], safe_str(key)), parent=parent_node)
+            for key in list(value.keys()) if key in value]
 
 
 def process_list_breadth_first(var_collector: Collector, parent_node: ParentNode, value) -> List[Node]:
